@@ -62,10 +62,10 @@ fn unsupported(e: &Expression, out: &mut Vec<(String, Vec<String>, bool)>, dead_
 
 fn unsupported_leaf(r: &mut Rng) -> Expression {
     match r.below(26) {
-        k @ 0..=12 => t(gen_unsupported_test(k as usize)),
+        k @ 0..=12 => t(gen_unsupported_test_with(k as usize, r)),
         13 => act(Action::Prune),
         14 => act(Action::List),
-        15 => act(Action::FileList("ls.out".into())),
+        15 => act(Action::FileList(r.pick(&["ls.out", "/dev/null", "/dev/stdout", "-", ""]).to_string())),
         k @ 16..=22 => {
             let mut f = gen_format(r, true);
             let pos = if r.chance(1, 2) { f.len() } else { r.usize(f.len() + 1) };
@@ -192,7 +192,7 @@ fn check(e: &Expression, case: &str, rep: &mut Report) {
 
 pub fn run(ctx: &Ctx, rep: &mut Report) {
     // every construct alone (26 kinds x a few draws)
-    par_cases(ctx, "alone", 26 * 40, rep, |i, rep| {
+    par_cases(ctx, "alone", 26 * ctx.pick(400, 20_000), rep, |i, rep| {
         let mut r = Rng::for_case(ctx.seed, "alone", i);
         // cycle deterministically through kinds
         let mut e = unsupported_leaf(&mut r);
